@@ -45,6 +45,8 @@ def rand_format(rng):
         ty = rng.choice(["str", "int", "bool"])
         args.append({"name": "p%d" % (k + 1), "req": k < nreq, "multi": k == narg - 1 and rng.random() < 0.4, "type": ty,
                      "nullable": rng.random() < 0.3, "dflt": {"t": "N"}})
+    if args and rng.random() < 0.15:   # an argument named like the parser's internal stand-ins for command names
+        args[rng.randrange(len(args))]["name"] = rng.choice(["cmd11", "cmd21", "cmd12"])
     cn = []
     for k in range(rng.randint(0, 2)):
         cn.append({"n": list(["srv", "add"][k]), "al": [list(a) for a in ([["s"], ["a2", "plus"]][k] if rng.random() < 0.7 else [])]})
